@@ -100,11 +100,20 @@ def strip_epoch(t):
 
 
 def subterms(t):
-    if isinstance(t, tuple):
+    if isinstance(t, tuple) and t and isinstance(t[0], str):
         yield t
+    if isinstance(t, tuple):
         for x in t:
             if isinstance(x, tuple):
                 yield from subterms(x)
+
+
+def substitute(t, old, new):
+    if t == old:
+        return new
+    if isinstance(t, tuple):
+        return tuple(substitute(x, old, new) for x in t)
+    return t
 
 
 def mentions(t, sub):
